@@ -90,8 +90,8 @@ def slot_name(s):
 
 
 def key_obj(k):
-  """Dict key id -> real key."""
-  return f'k{k}'
+  """Dict key id -> real key (key id 3 is the int 3: dicts may mix key types)."""
+  return 3 if k == 3 else f'k{k}'
 
 
 def leaf_obj(n):
@@ -158,7 +158,8 @@ def realize(heap, root=1):
 class Projector:
   """Real object graph -> canonical abstract heap (identity based)."""
 
-  def __init__(self, intern_leaf_tuples=False):
+  def __init__(self, intern_leaf_tuples=False, sort_dicts=False):
+    self.sort_dicts = sort_dicts
     self.ids = {}
     self.keep = []
     self.heap = []
@@ -219,7 +220,10 @@ class Projector:
         node['items'].append({'key': j, 'val': self.val(v), 'tg': 0})
     elif isinstance(x, dict):
       node['k'] = 'dict'
-      for kk, v in x.items():
+      its = list(x.items())
+      if self.sort_dicts:
+        its.sort(key=lambda kv: (type(kv[0]).__name__, repr(kv[0])))
+      for kk, v in its:
         node['items'].append({'key': _key_of(kk), 'val': self.val(v), 'tg': 0})
     else:
       node['k'] = 'foreign:' + type(x).__name__
@@ -241,6 +245,8 @@ def _slot_of(name):
 
 
 def _key_of(k):
+  if k == 3 and isinstance(k, int) and not isinstance(k, bool):
+    return 3
   if isinstance(k, str) and k[:1] == 'k' and k[1:].isdigit():
     return int(k[1:])
   return ['key', repr(k)]
